@@ -71,16 +71,16 @@ Proof.
   - cbn [pop_loop] in H. injection H as _ _ <-. constructor.
   - cbn [pop_loop] in H.
     (* the common in-run continuation *)
-    assert (Hin : forall r expected ordered,
+    assert (Hin : forall kept0 r expected ordered,
       (r = [] \/ partial_run r expected) -> (r = [] -> first c = true) -> tsn c = expected ->
       (if last c
-       then let '(l0, s0, ms0) := pop_loop kept None rest
+       then let '(l0, s0, ms0) := pop_loop kept0 None rest
               (if ordered && (sseq c =? seq) then uint16_add seq 1 else seq) in
             (l0, s0, (sid c, ppid c, join_data (rev (c :: r))) :: ms0)
-       else pop_loop kept (Some (c :: r, tsn_plus_one expected, ordered)) rest seq) = (l, s, ms) ->
+       else pop_loop kept0 (Some (c :: r, tsn_plus_one expected, ordered)) rest seq) = (l, s, ms) ->
       yields_ok (r ++ c :: rest) ms).
-    { clear H. intros r expected ordered Hr Hfirst Ht Heq. destruct (last c) eqn:El.
-      - destruct (pop_loop kept None rest _) as [[l0 s0] ms0] eqn:E. cbv beta iota in Heq. injection Heq as _ _ <-.
+    { clear H. intros kept0 r expected ordered Hr Hfirst Ht Heq. destruct (last c) eqn:El.
+      - destruct (pop_loop kept0 None rest _) as [[l0 s0] ms0] eqn:E. cbv beta iota in Heq. injection Heq as _ _ <-.
         constructor.
         + exists (c :: r), c. split; [|split].
           * cbn [complete_run]. destruct Hr as [->|Hp].
@@ -106,15 +106,9 @@ Proof.
             -- split.
                ++ rewrite oldest_cons by congruence. erewrite oldest_default; [exact Hf|congruence].
                ++ constructor; [exact El|exact Hl]. }
-    destruct run as [[[r expected] ordered]|].
-    + cbn [run_chunks]. destruct (negb (tsn c =? expected)) eqn:Et.
-      * destruct ordered.
-        -- injection H as _ _ <-. constructor.
-        -- apply IH in H; [|exact I]. cbn [run_chunks app] in H.
-           eapply yields_ok_incl; [|exact H]. intros x Hx. apply in_or_app. right. now right.
-      * apply negb_false_iff, Z.eqb_eq in Et. apply (Hin r expected ordered); auto.
-        intros ->. destruct Hok.
-    + cbn [run_chunks app]. destruct (negb (first c)) eqn:Ef.
+    (* no candidate run (also: an incomplete unordered run was given up and c is looked at again) *)
+    assert (HNone : forall kept0, pop_loop kept0 None (c :: rest) seq = (l, s, ms) -> yields_ok (c :: rest) ms).
+    { clear H. intros kept0 H. cbn [pop_loop] in H. destruct (negb (first c)) eqn:Ef.
       * destruct (negb (unordered c)).
         -- injection H as _ _ <-. constructor.
         -- apply IH in H; [|exact I]. cbn [run_chunks app] in H.
@@ -122,7 +116,16 @@ Proof.
       * apply negb_false_iff in Ef.
         destruct (negb (unordered c) && uint16_gt (sseq c) seq).
         -- injection H as _ _ <-. constructor.
-        -- apply (Hin [] (tsn c) (negb (unordered c))); auto.
+        -- apply (Hin kept0 [] (tsn c) (negb (unordered c))); auto. }
+    destruct run as [[[r expected] ordered]|].
+    + cbn [run_chunks]. destruct (negb (tsn c =? expected)) eqn:Et.
+      * destruct ordered.
+        -- injection H as _ _ <-. constructor.
+        -- change (pop_loop (r ++ kept) None (c :: rest) seq = (l, s, ms)) in H. apply HNone in H.
+           eapply yields_ok_incl; [|exact H]. intros x Hx. apply in_or_app. now right.
+      * apply negb_false_iff, Z.eqb_eq in Et. apply (Hin kept r expected ordered); auto.
+        intros ->. destruct Hok.
+    + cbn [run_chunks app]. apply (HNone kept). exact H.
 Qed.
 
 Theorem pop_messages_yields l seq l' s' ms :
@@ -144,30 +147,36 @@ Proof.
   - cbn [pop_loop] in H.
     assert (Hret : incl (retained kept run (c :: rest)) (kept ++ run_chunks run ++ c :: rest)).
     { intros x Hx. unfold retained in Hx. destruct run as [[[r e] o]|]; inapp. }
-    assert (Hin : forall r expected ordered,
+    assert (Hin : forall kept0 r expected ordered,
       (if last c
-       then let '(l0, s0, ms0) := pop_loop kept None rest
+       then let '(l0, s0, ms0) := pop_loop kept0 None rest
               (if ordered && (sseq c =? seq) then uint16_add seq 1 else seq) in
             (l0, s0, (sid c, ppid c, join_data (rev (c :: r))) :: ms0)
-       else pop_loop kept (Some (c :: r, tsn_plus_one expected, ordered)) rest seq) = (l, s, ms) ->
-      incl l (kept ++ r ++ c :: rest)).
-    { clear H Hret. intros r expected ordered Heq. destruct (last c) eqn:El.
-      - destruct (pop_loop kept None rest _) as [[l0 s0] ms0] eqn:E. cbv beta iota in Heq. injection Heq as <- _ _.
+       else pop_loop kept0 (Some (c :: r, tsn_plus_one expected, ordered)) rest seq) = (l, s, ms) ->
+      incl l (kept0 ++ r ++ c :: rest)).
+    { clear H Hret. intros kept0 r expected ordered Heq. destruct (last c) eqn:El.
+      - destruct (pop_loop kept0 None rest _) as [[l0 s0] ms0] eqn:E. cbv beta iota in Heq. injection Heq as <- _ _.
         apply IH in E. intros x Hx. apply E in Hx. inapp.
       - apply IH in Heq. intros x Hx. apply Heq in Hx. inapp. }
-    destruct run as [[[r expected] ordered]|].
-    + cbn [run_chunks] in *. destruct (negb (tsn c =? expected)).
-      * destruct ordered.
-        -- injection H as <- _ _. exact Hret.
-        -- apply IH in H. intros x Hx. apply H in Hx. inapp.
-      * now apply (Hin r expected ordered).
-    + cbn [run_chunks app] in *. destruct (negb (first c)).
+    assert (HNone : forall kept0, pop_loop kept0 None (c :: rest) seq = (l, s, ms) -> incl l (kept0 ++ c :: rest)).
+    { clear H Hret. intros kept0 H. cbn [pop_loop] in H.
+      assert (Hret : incl (retained kept0 None (c :: rest)) (kept0 ++ c :: rest)).
+      { intros x Hx. unfold retained in Hx. inapp. }
+      destruct (negb (first c)).
       * destruct (negb (unordered c)).
         -- injection H as <- _ _. exact Hret.
         -- apply IH in H. intros x Hx. apply H in Hx. inapp.
       * destruct (negb (unordered c) && uint16_gt (sseq c) seq).
         -- injection H as <- _ _. exact Hret.
-        -- now apply (Hin [] (tsn c) (negb (unordered c))).
+        -- now apply (Hin kept0 [] (tsn c) (negb (unordered c))). }
+    destruct run as [[[r expected] ordered]|].
+    + cbn [run_chunks] in *. destruct (negb (tsn c =? expected)).
+      * destruct ordered.
+        -- injection H as <- _ _. exact Hret.
+        -- change (pop_loop (r ++ kept) None (c :: rest) seq = (l, s, ms)) in H. apply HNone in H.
+           intros x Hx. apply H in Hx. inapp.
+      * now apply (Hin kept r expected ordered).
+    + cbn [run_chunks app] in *. apply (HNone kept). exact H.
 Qed.
 
 Theorem pop_messages_retains l seq l' s' ms :
